@@ -310,12 +310,11 @@ class Renderer:  # pylint: disable=too-many-instance-attributes
                 self.lines.append(f"bnz {loop}")
         return False
 
-    def program(self, prog: Tuple[Block, Tuple[Block, ...]]) -> str:
+    def program(self, prog: Tuple[Block, Tuple[Block, ...]], sub_order: Optional[Sequence[int]] = None) -> str:
         main, subs = prog
-        self.lines = []
-        out = [f"#pragma version {self.version}"]
+        out: List[str] = [f"#pragma version {self.version}"]
+        tags: List[Any] = [("h", 0)]
         sub_chunks: List[List[str]] = []
-        # render main
         self.lines = []
         term = self.block(main)
         main_lines = self.lines
@@ -325,28 +324,50 @@ class Renderer:  # pylint: disable=too-many-instance-attributes
             if not t:
                 self.lines.append("retsub")
             sub_chunks.append(self.lines)
+        order = list(sub_order) if sub_order is not None else list(range(len(subs)))
+
+        def emit_main() -> None:
+            for k, l in enumerate(main_lines):
+                out.append(l)
+                tags.append(("m", k))
+
+        def emit_subs() -> None:
+            for i in order:
+                for k, l in enumerate(sub_chunks[i]):
+                    out.append(l)
+                    tags.append(("s", i, k))
+
+        def glue(ls: List[str], name: str) -> None:
+            for k, l in enumerate(ls):
+                out.append(l)
+                tags.append(("g", name, k))
+
         if self.subs_first and subs:
-            out.append(f"b {self.lp}main_0")
-            for ch in sub_chunks:
-                out += ch
-            out.append(f"{self.lp}main_0:")
-            out += main_lines
+            glue([f"b {self.lp}main_0"], "jump")
+            emit_subs()
+            glue([f"{self.lp}main_0:"], "mainlabel")
+            emit_main()
             if not term:
-                out += ["int 1"] if self.fall_off else ["int 1", "return"]
+                glue(["int 1"] if self.fall_off else ["int 1", "return"], "end")
         else:
-            out += main_lines
+            emit_main()
             if not term:
-                if subs or not self.fall_off:
-                    out += ["int 1", "return"]
-                else:
-                    out += ["int 1"]
-            for ch in sub_chunks:
-                out += ch
+                glue(["int 1", "return"] if (subs or not self.fall_off) else ["int 1"], "end")
+            emit_subs()
+        self.tags = tags
         return "\n".join(out) + "\n"
 
 
 def render(prog: Tuple[Block, Tuple[Block, ...]], atoms: Sequence[Sequence[str]], **kw: Any) -> str:
     return Renderer(atoms, **kw).program(prog)
+
+
+def render_tagged(prog: Tuple[Block, Tuple[Block, ...]], atoms: Sequence[Sequence[str]], sub_order: Optional[Sequence[int]] = None,
+                  **kw: Any) -> Tuple[str, List[Any]]:
+    """(source, tag per line): tags identify a line independently of where its chunk is placed."""
+    r = Renderer(atoms, **kw)
+    src = r.program(prog, sub_order)
+    return src, r.tags
 
 
 def count_slots(prog: Tuple[Block, Tuple[Block, ...]]) -> int:
